@@ -7,6 +7,9 @@ import SynapModel.Drv.Layers
 import SynapModel.Drv.Tensor
 import SynapModel.Drv.Init
 import SynapModel.Drv.Rng
+import SynapModel.Drv.Layer
+import SynapModel.Drv.Conv
+import SynapModel.Drv.Stab
 /-!
 # `synapdrv` : line-protocol interpreter of the model
 
@@ -33,6 +36,9 @@ def step (st : State) (line : String) : State × String :=
   | "t" :: rest => let (w, o) := Drv.Tensor.run st.t rest; ({ st with t := w }, o)
   | "init" :: rest => (st, Drv.Init.run rest)
   | "rng" :: rest => (st, Drv.Rng.run rest)
+  | "layer" :: rest => (st, Drv.Layer.run rest)
+  | "conv" :: rest => (st, Drv.Conv.run rest)
+  | "stab" :: rest => (st, Drv.Stab.run rest)
   | "reset" :: _ => ({}, "ok")
   | _ => (st, "bad-op")
 
